@@ -208,6 +208,9 @@ def check(res):
         return list(s.get("keys") or [dev])
 
     bundle = None  # None = not bundling; else {"stream":..., "reads": [(dev, data)]}
+    outside_at_rewind = False
+    replayed_now = False
+    executed_mids = set()
     seen_seq = {}  # stream -> highest seq_num emitted so far
     prev_max = {}  # event seq -> highest seq_num of its stream before it
     described = {}  # stream -> data keys of the latest descriptor
@@ -227,7 +230,12 @@ def check(res):
             prev_max[e.seq] = seen_seq.get(sname, 0)  # highest seq_num of the stream before this event
             seen_seq[sname] = max(seen_seq.get(sname, 0), e.d["doc"]["seq_num"])
         if (e.kind == "call_begin" and e.d["api"] == "resume") or (e.kind == "msg" and e.d["cmd"] == "_start_suspender"):
+            outside_at_rewind = bundle is None  # where the plan stands: inside a bundle of its own, or not
             bundle = None  # a rewind cancels the open attempt
+            continue
+        if e.kind == "msg":
+            replayed_now = e.d["mid"] in executed_mids
+            executed_mids.add(e.d["mid"])
             continue
         if e.kind != "cmd":
             continue
@@ -235,6 +243,11 @@ def check(res):
         if m is None:
             continue
         cmd, end = e.d["cmd"], e.d["end"]
+        if end == "error" and replayed_now and outside_at_rewind and bundle is not None:
+            # a message of the replay failed inside a bundle that the replay had opened, and the plan stands outside
+            # any bundle: the engine cancels that bundle (the plan is past it and would never close it)
+            bundle = None
+            continue
         if cmd == "create" and end == "ok":
             bundle = {"stream": m.d["kw"].get("name"), "reads": []}
         elif cmd == "read":
